@@ -672,7 +672,7 @@ def monC07c : ObsMonitor Obs M7c where
 every model trace (`C07b_obs`)
 
 The product of `monC07a` and `monC06o` with a flag per run: "this run belongs to the generation of the
-record now stored under its key". The flag is set when the routine function is entered while no call is in
+record now stored under its key". The flag is set (when the routine function is entered, or later) while no call is in
 progress, the key is known to be in the set and the run's constructor generation is the current one
 (`cur`); it stays as long as the key is known to have stayed in the set (a new generation starts only when
 the key was not in the set — `ResetRoutine`, `RestartRoutine`, `SetKey`, `SetContext`, retries keep it).
@@ -685,8 +685,8 @@ structure M7b where
   fl : List Bool := []
 
 /-- no call is in progress, `k` is in the set and `d` is the constructor generation of its record -/
-def M7b.cur (m : M7b) (k d : Nat) : Bool :=
-  m.o.pending.isEmpty && m.o.st k == .present && m.o.cnt k == some d
+def M6o.cur (o : M6o) (k d : Nat) : Bool :=
+  o.pending.isEmpty && o.st k == .present && o.cnt k == some d
 
 /-- a flagged run of `k` is inside its routine function -/
 def M7b.clash (m : M7b) (k : Nat) : Bool :=
@@ -696,17 +696,19 @@ def M7b.clash (m : M7b) (k : Nat) : Bool :=
     | _, _ => false
 
 def M7b.bad (m : M7b) : Obs → Bool
-  | .cbin _ k d => m.cur k d && m.clash k
+  | .cbin _ k d => m.o.cur k d && m.clash k
   | _ => false
 
-/-- the flags with the flag of a run that is entered -/
+/-- the flags with the (not yet set) flag of a run that is entered -/
 def M7b.ext (m : M7b) : Obs → List Bool
-  | .cbin _ k d => m.fl ++ [m.cur k d]
+  | .cbin _ _ _ => m.fl ++ [false]
   | _ => m.fl
 
-/-- a flag survives while the key is known to be in the set -/
+/-- a flag survives while the key is known to be in the set; it is set (at the entry or later) when no
+call is in progress, the key is known to be in the set and the run's constructor generation is that of
+the key's record -/
 def flagsUpd (a : M7a) (o : M6o) (fl : List Bool) : List Bool :=
-  List.zipWith (fun (r : Nat × Nat × Bool) (f : Bool) => f && (o.st r.1 == .present)) a.runs fl
+  List.zipWith (fun (r : Nat × Nat × Bool) (f : Bool) => (f && (o.st r.1 == .present)) || o.cur r.1 r.2.1) a.runs fl
 
 def monC07b : ObsMonitor Obs M7b where
   init := {}
